@@ -14,6 +14,8 @@ func main() {
 		vlib.Group{Name: "chol-solve", Gen: genCholSolve},
 		vlib.Group{Name: "chol-band", Gen: genBandChol},
 		vlib.Group{Name: "chol-piv", Gen: genPst},
+		vlib.Group{Name: "chol-piv-tol", Gen: genPstTol},
+		vlib.Group{Name: "con-ladder", Gen: genConLadder},
 		vlib.Group{Name: "qr", Gen: genFactor(kindQR)},
 		vlib.Group{Name: "lq", Gen: genFactor(kindLQ)},
 		vlib.Group{Name: "rq", Gen: genFactor(kindRQ)},
